@@ -21,19 +21,19 @@ from concurrent.futures import ThreadPoolExecutor
 from vlib import *
 
 PID = "C19"
-ACTIONS = ["GetCall", "GetLock", "GetPop", "GetCreateBegin", "GetCreateEnd", "GetCreateFail", "GetReturn", "Use",
+ACTIONS = ["GetCall", "GetLock", "GetPop", "GetCreateBegin", "GetCreateEnd", "GetCreateFail", "GetPanic", "GetReturn", "Use",
            "DropCall", "DropLock", "DropPush", "DropReturn", "Forget", "PoolReset", "PoolResetToStart", "PoolDrop"]
 
 # (cfg, workers); every cfg is a complete (exhaustive) exploration of its instance
 MC = {
-    "quick": [("MC_Pool.cfg", 4), ("MC_Pool_reset.cfg", 2), ("MC_Pool_forget.cfg", 1)],
+    "quick": [("MC_Pool.cfg", 4), ("MC_Pool_reset.cfg", 2), ("MC_Pool_forget.cfg", 1), ("MC_Pool_poison.cfg", 2)],
     "thorough": [("MC_Pool_thorough.cfg", 6), ("MC_Pool_thorough4.cfg", 3), ("MC_Pool_reset_thorough.cfg", 3),
                  ("MC_Pool_forget_thorough.cfg", 3), ("MC_Pool_forget_thorough3.cfg", 2),
-                 ("MC_Pool.cfg", 2), ("MC_Pool_reset.cfg", 1), ("MC_Pool_forget.cfg", 1)],
+                 ("MC_Pool.cfg", 2), ("MC_Pool_reset.cfg", 1), ("MC_Pool_forget.cfg", 1), ("MC_Pool_poison.cfg", 2)],
 }
 # TLC's coverage statistics cost a factor of several on big models: they are collected on the quick configurations only
 # (which the thorough tier runs as well and which together take every action)
-COVERAGE_CFGS = {"MC_Pool.cfg", "MC_Pool_reset.cfg", "MC_Pool_forget.cfg"}
+COVERAGE_CFGS = {"MC_Pool.cfg", "MC_Pool_reset.cfg", "MC_Pool_forget.cfg", "MC_Pool_poison.cfg"}
 # configurations that TLC must REFUTE (cfg -> the property / invariant whose violation is expected): they document what the
 # property needs -- the naive reading of "peak", and the variant of the pool that creates arenas outside the critical section
 EXPECTED_REFUTATIONS = {"MC_Pool_naive.cfg": "NaiveReuse", "MC_Pool_outside.cfg": "CreatedOnlyWhenIdleEmpty",
@@ -43,18 +43,22 @@ EMIT = {
     "quick": [("PSpec", "{1, 2}", 2, 0, "TRUE", "FALSE", None), ("PSpec", "{1, 2, 3}", 1, 0, "TRUE", "TRUE", None),
               ("PSpec", "{1, 2}", 1, 1, "TRUE", "FALSE", None), ("SSpec", "{1, 2, 3}", 3, 2, "TRUE", "TRUE", 120),
               # PROBE schedules: generated from the variant that creates outside the critical section (CreateUnderLock = FALSE)
-              ("PSpec", "{1, 2}", 2, 0, "FALSE", "FALSE", None, "FALSE"), ("SSpec", "{1, 2, 3}", 2, 1, "TRUE", "FALSE", 60, "FALSE")],
+              ("PSpec", "{1, 2}", 2, 0, "FALSE", "FALSE", None, "FALSE"), ("SSpec", "{1, 2, 3}", 2, 1, "TRUE", "FALSE", 60, "FALSE"),
+              # POISON schedules: a get panics inside its critical section (create branch), the pool mutex is poisoned from then on
+              ("PSpec", "{1, 2}", 2, 0, "FALSE", "FALSE", None, "TRUE", "TRUE"), ("SSpec", "{1, 2, 3}", 2, 1, "FALSE", "TRUE", 60, "TRUE", "TRUE")],
     "thorough": [("PSpec", "{1, 2}", 2, 0, "TRUE", "TRUE", None), ("PSpec", "{1, 2, 3}", 1, 0, "TRUE", "TRUE", None),
                  ("PSpec", "{1, 2}", 1, 1, "TRUE", "TRUE", None), ("PSpec", "{1, 2}", 3, 0, "FALSE", "FALSE", None),
                  ("PSpec", "{1, 2}", 1, 2, "TRUE", "FALSE", None),
                  ("SSpec", "{1, 2, 3}", 3, 2, "TRUE", "TRUE", 1500), ("SSpec", "{1, 2, 3, 4}", 2, 1, "TRUE", "TRUE", 800),
                  ("SSpec", "{1, 2}", 4, 3, "TRUE", "TRUE", 500),
-                 ("PSpec", "{1, 2}", 2, 0, "FALSE", "FALSE", None, "FALSE"), ("SSpec", "{1, 2, 3}", 3, 2, "TRUE", "TRUE", 600, "FALSE")],
+                 ("PSpec", "{1, 2}", 2, 0, "FALSE", "FALSE", None, "FALSE"), ("SSpec", "{1, 2, 3}", 3, 2, "TRUE", "TRUE", 600, "FALSE"),
+                 ("PSpec", "{1, 2}", 2, 0, "FALSE", "FALSE", None, "TRUE", "TRUE"), ("SSpec", "{1, 2, 3}", 3, 2, "TRUE", "TRUE", 600, "TRUE", "TRUE")],
 }
 FREE_RUNS = {"quick": 40, "thorough": 400}
 
 EXPECT_POINT = {"GetCall": ("get_want",), "GetLock": ("get_cs",), "GetPop": ("get_post",), "GetCreateBegin": ("get_create",),
-                "GetCreateEnd": ("get_post",), "GetCreateFail": ("idle", "done"), "GetReturn": ("holding",),
+                "GetCreateEnd": ("get_post",), "GetCreateFail": ("idle", "done"), "GetPanic": ("idle", "done"),
+                "GetReturn": ("holding",),
                 "Use": ("used",), "DropCall": ("drop_want",), "DropLock": ("drop_cs",), "DropPush": ("drop_post",),
                 "DropReturn": ("idle", "done"), "Forget": ("idle", "done")}
 MAIN_OPS = {"PoolReset": "reset", "PoolResetToStart": "reset_to_start", "PoolDrop": "drop"}
@@ -131,11 +135,12 @@ def _emit_one(args):
     k, e, sd, thorough = args
     spec, threads, rounds, poolops, mayfail, mayforget, sim = e[:7]
     cul = e[7] if len(e) > 7 else "TRUE"
+    maypanic = e[8] if len(e) > 8 else "FALSE"
     cfg = ".gen_pool_emit_%d_%d.cfg" % (os.getpid(), k)
     with open(os.path.join(SPEC, cfg), "w") as f:
         f.write("SPECIFICATION %s\nCONSTANTS\n    Threads = %s\n    MaxRounds = %d\n    MaxChunks = 100\n"
-                "    MaxPoolOps = %d\n    CreateUnderLock = %s\n    MayFail = %s\n    MayForget = %s\nINVARIANT Emit\n"
-                % (spec, threads, rounds, poolops, cul, mayfail, mayforget))
+                "    MaxPoolOps = %d\n    CreateUnderLock = %s\n    MayFail = %s\n    MayForget = %s\n    MayPanic = %s\nINVARIANT Emit\n"
+                % (spec, threads, rounds, poolops, cul, mayfail, mayforget, maypanic))
     try:
         if sim:
             r = tlc("MC_PoolSched", cfg, workers=1, timeout=2400 if thorough else 600, simulate=sim, depth=1500,
@@ -153,7 +158,7 @@ def _emit_one(args):
         raise ToolError("schedule emission %s %s produced nothing" % (spec, threads))
     nthreads = threads.count(",") + 1
     return {"spec": spec, "threads": nthreads, "rounds": rounds, "poolops": poolops, "mayfail": mayfail == "TRUE",
-            "mayforget": mayforget == "TRUE", "probe": cul == "FALSE",
+            "mayforget": mayforget == "TRUE", "probe": cul == "FALSE", "maypanic": maypanic == "TRUE",
             "simulate": sim, "exhaustive": sim is None, "schedules": len(hists), "distinct_states": r.distinct,
             "wall_s": round(r.wall, 1)}, hists
 
@@ -188,6 +193,8 @@ def schedule_to_input(run, nthreads, hist, settings, mode="forced"):
         if label == "GetCreateFail":
             tok += "F"
             vias[t][cur_round[t]] |= 1          # only the try_ variants return Err; the others would abort the process
+        elif label == "GetPanic":
+            vias[t][cur_round[t]] = 6           # catch_unwind(|| pool.get_with_size(usize::MAX)): panics in the create branch
         elif label == "Use" and x == 1:
             tok += "B"
         elif label == "Forget":
@@ -206,7 +213,8 @@ def free_run_input(run, rng):
         for t in range(1, n + 1):
             k = rng.randint(0, 8)
             if k:
-                lines.append("P %d %s" % (t, " ".join(str(rng.randint(0, 5)) for _ in range(k))))
+                # via 6 = the poisoning get (panics inside the critical section unless an arena is idle)
+                lines.append("P %d %s" % (t, " ".join(str(6 if rng.random() < 0.06 else rng.randint(0, 5)) for _ in range(k))))
         if not any(l.startswith("P") for l in lines[-n:]):
             lines.append("P 1 0 1")
         lines.append("G %d" % rng.randint(1, 2 ** 31 - 1))
@@ -623,6 +631,8 @@ def check_c19(tier):
         "schedule_emission": [i for i, _ in emitted],
         "forced_schedules_executed": nforced, "free_running_runs": len(runs) - nforced,
         "probe_schedules_executed": sum(1 for r in runs if r["mode"] == "probe"),
+        "gets_that_panicked_inside_the_critical_section_poisoning_the_mutex": sum(1 for _, evs in traces for e in evs if e["ev"] == "get_panic"),
+        "runs_with_a_poisoned_pool_mutex": sum(1 for _, evs in traces if any(e["ev"] == "get_panic" for e in evs)),
         "lock_probes_while_an_arena_was_being_created": nprobes, "lock_probes_that_found_the_mutex_held": nprobes_blocked,
         "runs_recorded": len(traces), "events_recorded": nev,
         "forced_runs_validated_in_execution_order": sum(1 for r in runs if r["mode"] == "forced") - seq_merged,
